@@ -120,10 +120,8 @@ def oracle(case) -> Result:
         mu.earlier_assignment(mps, x0, case['aseed'])
         res.ev('earlier-assignment-evaluated-first')
     mu.set_coefficients(mps, case['aseed'])
-    if case['mode'] == 'eval':
-        mps.eval()
-    else:
-        mps.train()
+    if (case['mode'] == 'eval') == mps.training:
+        mps.train(case['mode'] != 'eval')   # (no mode call when the model already is in that mode)
     if case.get('export_first'):
         try:
             mps.export()          # an observer; whether it succeeds is the business of C02 / C10
